@@ -4,8 +4,9 @@ package expr
 
 /*@
 func matchLikePattern
-  props C13
+  props C13 C06
   option safety
+  option pure
   ensures empty-pattern-matches-only-empty-text: len(pattern) == 0 ==> (result <==> len(text) == 0)
   ensures empty-text-needs-all-percent: len(text) == 0 ==> (result <==> forall(i, 0, len(pattern), pattern[i] == 37))
   loop 1 invariant pi <= len(pattern)
@@ -14,4 +15,185 @@ func matchLikePattern
   loop 1 invariant len(pattern) == 0 ==> pi == 0 && starIdx == -1 && ti == 0
   loop 1 invariant len(text) == 0 ==> pi == 0
   loop 2 invariant 0 <= pi && (len(text) == 0 ==> forall(i, 0, pi, pattern[i] == 37))
+@*/
+
+/*@
+// ---------------------------------------------------------------- C06: evaluator kernels
+pred cmpKnown(u) := u == "==" || u == "=" || u == "!=" || u == "<>" || u == ">" || u == "<" || u == ">=" || u == "<="
+pred cmpNum(u, a, b) := ((u == "==" || u == "=") && a == b) || ((u == "!=" || u == "<>") && a != b) || (u == ">" && a > b) || (u == "<" && a < b) || (u == ">=" && a >= b) || (u == "<=" && a <= b)
+
+extern convertToFloatSafe
+  props C06
+  option pure
+
+extern convertToFloat
+  props C06
+  option pure
+
+func isComparisonOperator
+  props C06
+  option pure
+
+extern isLogicalOperator
+  props C06
+  option pure
+
+// SQL precedence, lowest to highest: OR < AND < NOT < comparison < additive < multiplicative < power
+func getOperatorPrecedence
+  props C06
+  option pure
+  ensures or-binds-loosest: op == "OR" ==> result == 1
+  ensures and-binds-tighter-than-or: op == "AND" ==> result == 2
+  ensures not-binds-tighter-than-and: op == "NOT" ==> result == 3
+  ensures comparisons-bind-tighter-than-logic: op == "=" || op == "==" || op == "!=" || op == "<>" || op == ">" || op == "<" || op == ">=" || op == "<=" || op == "LIKE" || op == "NOT LIKE" || op == "IS" || op == "IS NOT" ==> result == 4
+  ensures additive-binds-tighter-than-comparison: op == "+" || op == "-" ==> result == 5
+  ensures multiplicative-binds-tighter-than-additive: op == "*" || op == "/" || op == "%" ==> result == 6
+  ensures power-binds-tightest: op == "^" ==> result == 7
+
+func compareFloats
+  props C06
+  option safety
+  ensures known-operators-decide-by-the-numeric-order: cmpKnown(strings.ToUpper(operator)) ==> result1 == nil && (result0 <==> cmpNum(strings.ToUpper(operator), left, right))
+  ensures anything-else-is-an-error: !cmpKnown(strings.ToUpper(operator)) ==> result1 != nil
+
+func compareStrings
+  props C06 C13
+  option safety
+  ensures equality-is-text-equality: strings.ToUpper(operator) == "==" || strings.ToUpper(operator) == "=" ==> result1 == nil && (result0 <==> left == right)
+  ensures inequality-is-text-inequality: strings.ToUpper(operator) == "!=" || strings.ToUpper(operator) == "<>" ==> result1 == nil && (result0 <==> left != right)
+  ensures like-uses-the-matcher: strings.ToUpper(operator) == "LIKE" ==> result1 == nil && (result0 <==> matchLikePattern(left, right))
+  ensures anything-else-is-an-error: !cmpKnown(strings.ToUpper(operator)) && strings.ToUpper(operator) != "LIKE" ==> result1 != nil
+
+func compareValues
+  props C06
+  option safety
+  ensures a-null-operand-makes-a-comparison-not-true: (left == nil || right == nil) && strings.ToUpper(operator) != "IS" && strings.ToUpper(operator) != "IS NOT" ==> !result0 && result1 == nil
+  ensures is-compares-nullness: (left == nil || right == nil) && strings.ToUpper(operator) == "IS" ==> result1 == nil && (result0 <==> (left == nil && right == nil))
+  ensures numbers-compare-numerically-whatever-their-go-type: left != nil && right != nil && second(convertToFloatSafe(left)) && second(convertToFloatSafe(right)) && cmpKnown(strings.ToUpper(operator)) ==> result1 == nil && (result0 <==> cmpNum(strings.ToUpper(operator), convertToFloatSafe(left), convertToFloatSafe(right)))
+  ensures number-against-text-cannot-be-ordered: left != nil && right != nil && second(convertToFloatSafe(left)) != second(convertToFloatSafe(right)) && (strings.ToUpper(operator) == ">" || strings.ToUpper(operator) == "<" || strings.ToUpper(operator) == ">=" || strings.ToUpper(operator) == "<=") ==> result1 != nil
+
+func compareValuesForEquality
+  props C06
+  option safety
+  ensures null-equals-only-null: (left == nil || right == nil) ==> (result <==> (left == nil && right == nil))
+  ensures numbers-compare-numerically: left != nil && right != nil && second(convertToFloatSafe(left)) && second(convertToFloatSafe(right)) ==> (result <==> convertToFloatSafe(left) == convertToFloatSafe(right))
+
+func compareValuesWithNullForEquality
+  props C06
+  option safety
+  ensures null-equals-only-null: (leftIsNull || rightIsNull) ==> (result <==> (leftIsNull && rightIsNull))
+@*/
+
+/*@
+// ---------------------------------------------------------------- C06: arithmetic with NULL propagation
+// The recursive evaluators are specified per node: what a node returns in terms of what its operands returned.
+// Frame: evaluation reads the expression tree and the row and writes neither (assumed for the extern evaluators,
+// proved for the functions under contract).
+extern evaluateNode
+  props C06
+
+extern evaluateNodeValue
+  props C06
+
+extern evaluateBoolNode
+  props C06
+
+extern evaluateBoolOperator
+  props C06
+
+extern evaluateIsOperator
+  props C06
+
+func evaluateOperatorNode
+  props C06
+  option safety
+  requires node != nil
+  atreturn sum: result1 == nil && !isComparisonOperator(node.Value) && node.Value == "+" ==> result0 == left + right
+  atreturn difference: result1 == nil && !isComparisonOperator(node.Value) && node.Value == "-" ==> result0 == left - right
+  atreturn product: result1 == nil && !isComparisonOperator(node.Value) && node.Value == "*" ==> result0 == left * right
+  atreturn quotient: result1 == nil && !isComparisonOperator(node.Value) && node.Value == "/" ==> right != 0.0 && result0 == left / right
+  atreturn comparison-yields-one-or-zero: result1 == nil && isComparisonOperator(node.Value) ==> result0 == 1.0 || result0 == 0.0
+
+func evaluateOperatorValue
+  props C06
+  option safety
+  requires node != nil
+  atreturn a-null-operand-makes-the-arithmetic-result-null: (leftIsNull || rightIsNull) && result1 == nil && strings.ToUpper(node.Value) != "IS" && strings.ToUpper(node.Value) != "IS NOT" && !isLogicalOperator(node.Value) && !isComparisonOperator(node.Value) ==> result0 == nil
+  atreturn sum: result1 == nil && result0 != nil && !leftIsNull && !rightIsNull && leftOk && rightOk && node.Value == "+" ==> result0 == boxof(leftFloat + rightFloat, float64)
+  atreturn difference: result1 == nil && result0 != nil && !leftIsNull && !rightIsNull && leftOk && rightOk && node.Value == "-" ==> result0 == boxof(leftFloat - rightFloat, float64)
+  atreturn product: result1 == nil && result0 != nil && !leftIsNull && !rightIsNull && leftOk && rightOk && node.Value == "*" ==> result0 == boxof(leftFloat * rightFloat, float64)
+  atreturn quotient: result1 == nil && result0 != nil && !leftIsNull && !rightIsNull && leftOk && rightOk && node.Value == "/" ==> rightFloat != 0.0 && result0 == boxof(leftFloat / rightFloat, float64)
+  atreturn operands-are-converted-by-the-shared-rule: leftOk ==> leftFloat == convertToFloatSafe(left)
+
+extern evaluateNodeValueWithNull
+  props C06
+
+func evaluateNodeWithNull
+  props C06
+  option safety
+  ensures the-null-node-is-null: node == nil ==> result1 && result2 == nil
+  atreturn a-null-operand-makes-the-arithmetic-result-null: node != nil && node.Type == TypeOperator && !isComparisonOperator(node.Value) && result2 == nil && (leftIsNull__2 || rightIsNull__2) ==> result1
+  atreturn sum: node != nil && node.Type == TypeOperator && !isComparisonOperator(node.Value) && result2 == nil && !result1 && node.Value == "+" ==> result0 == leftVal + rightVal
+  atreturn difference: node != nil && node.Type == TypeOperator && !isComparisonOperator(node.Value) && result2 == nil && !result1 && node.Value == "-" ==> result0 == leftVal - rightVal
+  atreturn product: node != nil && node.Type == TypeOperator && !isComparisonOperator(node.Value) && result2 == nil && !result1 && node.Value == "*" ==> result0 == leftVal * rightVal
+  atreturn quotient: node != nil && node.Type == TypeOperator && !isComparisonOperator(node.Value) && result2 == nil && !result1 && node.Value == "/" ==> rightVal != 0.0 && result0 == leftVal / rightVal
+  atreturn a-null-operand-makes-a-comparison-null-not-true: node != nil && node.Type == TypeOperator && isComparisonOperator(node.Value) && result2 == nil && (leftIsNull || rightIsNull) && strings.ToUpper(node.Value) != "IS" && strings.ToUpper(node.Value) != "IS NOT" ==> result1 && result0 == 0.0
+  atreturn a-missing-or-null-column-is-null: node != nil && node.Type == TypeField && result2 == nil && (!found || val__2 == nil) ==> result1
+@*/
+
+/*@
+// ---------------------------------------------------------------- C06: CASE returns the first branch whose condition is true
+extern evaluateSimpleCaseExpression
+  props C06
+
+func evaluateSearchCaseExpression
+  props C06
+  option safety
+  requires node != nil
+  observe c := evaluateBoolNode
+  before evaluateBoolNode conditions-are-tested-in-order-until-one-is-true: !$c && $arg0 == whenClause.Condition
+  before evaluateNode a-then-branch-is-taken-only-for-its-own-true-condition: ($c && $arg0 == whenClause.Result) || (!$c && $arg0 == caseExpr.ElseResult && caseExpr.ElseResult != nil)
+  atreturn no-true-branch-and-no-else-gives-zero-for-null: result1 == nil && !$c && node.CaseExpr != nil && node.CaseExpr.ElseResult == nil ==> result0 == 0.0
+  loop 1 invariant !$c && caseExpr != nil && caseExpr == node.CaseExpr
+
+func evaluateCaseExpressionWithNull
+  props C06
+  option safety
+  requires node != nil
+  observe c := evaluateBoolNode
+  before evaluateBoolNode conditions-are-tested-in-order-until-one-is-true: !$c && $arg0 == whenClause.Condition
+  before evaluateNodeValueWithNull a-then-branch-is-taken-only-for-its-own-true-condition: ($c && $arg0 == whenClause.Result) || (!$c && $arg0 == caseExpr.ElseResult && caseExpr.ElseResult != nil)
+  atreturn no-true-branch-and-no-else-is-null: result2 == nil && !$c && node.Type == TypeCase && node.CaseExpr != nil && node.CaseExpr.Value == nil && node.CaseExpr.ElseResult == nil ==> result1 && result0 == nil
+  loop 1 invariant !$c && caseExpr != nil && caseExpr == node.CaseExpr
+
+func evaluateCaseExpressionValueWithNull
+  props C06
+  option safety
+  requires node != nil
+  observe eq := compareValuesWithNullForEquality
+  before compareValuesWithNullForEquality values-are-compared-in-order-until-one-matches: !$eq
+  before evaluateNodeValueWithNull only-the-case-value-a-when-value-the-matching-then-or-the-else-are-evaluated: $arg0 == caseExpr.Value || (!$eq && $arg0 == whenClause.Condition) || ($eq && $arg0 == whenClause.Result) || (!$eq && $arg0 == caseExpr.ElseResult && caseExpr.ElseResult != nil)
+  atreturn no-match-and-no-else-is-null: result2 == nil && !$eq && node.CaseExpr != nil && node.CaseExpr.ElseResult == nil ==> result1 && result0 == nil
+  loop 1 invariant !$eq && caseExpr != nil && caseExpr == node.CaseExpr
+@*/
+
+/*@
+// ---------------------------------------------------------------- C06: a built-in is executed only on arguments its Validate accepted
+func evaluateFunctionNode
+  props C06
+  option safety
+  requires node != nil
+  modifies *
+  observe verr := Validate
+  before Execute arguments-were-validated-first: $verr == nil
+  loop 1 invariant len(args) == len(node.Args) && node != nil
+
+func evaluateFunctionValue
+  props C06
+  option safety
+  requires node != nil
+  modifies *
+  observe verr := Validate
+  before Execute arguments-were-validated-first: $verr == nil
+  loop 1 invariant len(args) == len(node.Args) && node != nil
 @*/
